@@ -167,8 +167,12 @@ fn open_channel(engine: &Engine, sh: &Shared, c: &Value, respond: bool) -> Arc<a
     if events {
         for what in ["start", "complete", "error"] {
             let (sh, cid, w) = (sh.clone(), cid.clone(), what.to_string());
+            let ack = opts.ack;
+            let ex = ex.clone();
             let f = move |e: &acts::Event<acts::Message>| {
                 let mut v = msg_json(e, false);
+                v["stored"] = json!(if ack { Some(ex.msg().get(&e.id).is_ok()) } else { None });
+                v["now"] = json!(now_ms());
                 v["t"] = json!("cb");
                 v["what"] = json!(w);
                 v["chan"] = json!(cid);
